@@ -70,6 +70,8 @@ def run_tlc(specdir, module, cfg, workers=16, timeout=3600, outfile=None, extra=
     gen = dist = None
     tail = []
     ok = False
+    lpos = ""
+    evalerr = False
     with open(outfile, errors="replace") as f:
         for line in f:
             if line.startswith('"CASE ') or line.startswith('"VERDICT '):
@@ -80,12 +82,17 @@ def run_tlc(specdir, module, cfg, workers=16, timeout=3600, outfile=None, extra=
             m = _re_states.search(line)
             if m:
                 gen, dist = int(m.group(1)), int(m.group(2))
+            if line.startswith("/\\ l = "):
+                lpos = line.strip()
+            if "unexpected exception" in line or "Error: Evaluating" in line or "The error occurred when TLC was evaluating" in line or "StackOverflowError" in line:
+                evalerr = True
             if "Model checking completed. No error has been found." in line:
                 ok = True
     if r.returncode == 124:
         raise Infra("TLC timed out on %s/%s" % (module, cfg))
     if not ok or gen is None:
-        raise Infra("TLC did not complete cleanly on %s/%s (exit %d):\n%s" % (module, cfg, r.returncode, "".join(tail)))
+        raise Infra("TLC did not complete cleanly on %s/%s (exit %d)%s:\n%s" % (module, cfg, r.returncode,
+                    (" [evaluating trace line: %s; unexpected exception]" % lpos) if (evalerr and lpos) else "", "".join(tail)))
     return outfile, gen, dist
 
 def run_tlc_raw(specdir, module, trace, idx, workers=1, timeout=3000):
@@ -177,7 +184,7 @@ def _validate_one(specdir, trace, idx, workers, timeout, module):
             # the specification could not evaluate one recorded line (a TLC evaluation error, not a verdict): the line is
             # set aside as an abstention and the rest of the shard is validated; more than 8 such lines is a broken check
             m = re.search(r"/\\ l = (\d+)", str(e))
-            if attempt == 8 or m is None or "unexpected exception" not in str(e) and "evaluating" not in str(e):
+            if attempt == 8 or m is None or "evaluating trace line" not in str(e):
                 raise
             k = int(m.group(1))
             with open(trace) as f:
